@@ -682,8 +682,30 @@ impl SvgElement {
             || self.is_graphics_element()
             || matches!(
                 self.name.as_str(),
-                "clipPath" | "foreignObject" | "tspan" | "textPath"
-            );
+                "clipPath"
+                    | "foreignObject"
+                    | "tspan"
+                    | "textPath"
+                    // paint servers, filters and their primitives
+                    | "linearGradient"
+                    | "radialGradient"
+                    | "stop"
+                    | "filter"
+                    // descriptive, style and animation elements
+                    | "title"
+                    | "desc"
+                    | "metadata"
+                    | "style"
+                    | "script"
+                    | "view"
+                    | "animate"
+                    | "animateMotion"
+                    | "animateTransform"
+                    | "set"
+                    | "mpath"
+            )
+            || (self.name.starts_with("fe")
+                && self.name[2..].starts_with(|c: char| c.is_ascii_uppercase()));
         let mut bs = BytesStart::new(self.name);
         for (k, v) in &self.attrs {
             if layout_only && matches!(k.as_str(), "surround" | "inside" | "margin") {
